@@ -14,6 +14,7 @@ import SqiProofs.QuatO0
 import SqiGen.QuatAlg
 import SqiGen.QuatMat
 import SqiGen.HnfCore
+import SqiProofs.HnfText
 /- C14 — "Quaternion algebra and lattice arithmetic is exact and canonical".
    Property theorems about the hand model `SqiModel.Quat` (tie H: the model's executable definitions are run
    against the C functions of algebra.c / dim4.c / lattice.c on every check run by tools/props/c14.py).
@@ -175,6 +176,25 @@ theorem hnfReduce_unfold (xgcd : ℤ → ℤ → ℤ × ℤ × ℤ) (i k : Nat) 
       (a.set j (SqiGen.HnfCore.reduce_step xgcd Int.tdiv Int.tmod Vec4.get Vec4.lc Vec4.neg i b (a k) (a j))) := by
   rw [hnf_reduce_step_translated]
   rfl
+
+/-- **`ibz_mat_4x8_hnf_core` as TEXT = the model**: the loop program (while/for loops, guards, the integer updates of i, j,
+    k, position of the blocks) and the three arithmetic blocks, all translated from the current dim4.c, put together compute
+    `hnfCore` — the function `hnf_span`, `hnf_echelon`, `hnf_is_hnf`, `hnf_canonical` are about — and every loop of the
+    program ends through its own condition (final i = −1), so the fuel bound of the translation is never reached.
+    (Input/output copy loops: `hnf_skeleton_translated`.) -/
+theorem hnf_core_text (g : List Vec4) :
+    (SqiGen.HnfCore.core (SqiProofs.HnfText.innerStepG xgcdGmp) (SqiProofs.HnfText.normG xgcdGmp)
+        (SqiProofs.HnfText.reduceG xgcdGmp) (colsOfList g)).i = -1 ∧
+    Mat4.ofCols
+      ((SqiGen.HnfCore.core (SqiProofs.HnfText.innerStepG xgcdGmp) (SqiProofs.HnfText.normG xgcdGmp)
+        (SqiProofs.HnfText.reduceG xgcdGmp) (colsOfList g)).a 4)
+      ((SqiGen.HnfCore.core (SqiProofs.HnfText.innerStepG xgcdGmp) (SqiProofs.HnfText.normG xgcdGmp)
+        (SqiProofs.HnfText.reduceG xgcdGmp) (colsOfList g)).a 5)
+      ((SqiGen.HnfCore.core (SqiProofs.HnfText.innerStepG xgcdGmp) (SqiProofs.HnfText.normG xgcdGmp)
+        (SqiProofs.HnfText.reduceG xgcdGmp) (colsOfList g)).a 6)
+      ((SqiGen.HnfCore.core (SqiProofs.HnfText.innerStepG xgcdGmp) (SqiProofs.HnfText.normG xgcdGmp)
+        (SqiProofs.HnfText.reduceG xgcdGmp) (colsOfList g)).a 7) = hnfCore g :=
+  SqiProofs.HnfText.core_text_eq_model xgcdGmp g
 
 /-- the control skeleton of `ibz_mat_4x8_hnf_core` / `ibz_mat_4x4_hnf_mod` extracted from the current C text (initial
     values of i, j, k; loop headers; guards; the integer updates of i/j/k; position of the three arithmetic blocks; input
